@@ -164,6 +164,15 @@ fn body_pool() -> Vec<(&'static str, Argv)> {
         ("STUB-unknown-sub", av(&["CLIENT", "NOSUCHSUB"])),
         ("STUB-client-list", av(&["CLIENT", "LIST"])),
         ("STUB-config-set", av(&["CONFIG", "SET", "maxmemory", "0"])),
+        // SET with every option family: a body made of SETs only is the shape a batching EXEC would look for
+        ("SET-get", av(&["SET", "s", "with-get", "GET"])),
+        ("SET-ex", av(&["SET", "s", "with-ex", "EX", "100000"])),
+        ("SET-px-n", av(&["SET", "n", "with-px", "PX", "100000000"])),
+        ("SET-keepttl", av(&["SET", "s", "kept", "KEEPTTL"])),
+        ("SET-n-get", av(&["SET", "n", "n2", "GET"])),
+        ("SET-nx-n", av(&["SET", "n", "only-if-absent", "NX"])),
+        ("SET-xx-n", av(&["SET", "n", "only-if-present", "XX"])),
+        ("SET-get-wrongtype", av(&["SET", "l", "v", "GET"])),
     ]
 }
 
@@ -568,7 +577,18 @@ pub fn txn_leg(args: &Args) {
         let n = args.get_u64("cases", if args.thorough() { 12000 } else { 1500 });
         for i in 0..n {
             let nb = rng.gen_range(0..7);
-            let body: Vec<usize> = (0..nb).map(|_| rng.gen_range(0..pool_len)).collect();
+            let mut body: Vec<usize> = (0..nb).map(|_| rng.gen_range(0..pool_len)).collect();
+            // every sixth body is homogeneous: 2-9 commands of one kind (all SETs with their options, all GETs, all INCRs ..)
+            if i % 6 == 5 {
+                let pool = body_pool();
+                let head = pool[rng.gen_range(0..pool_len)].1[0].to_ascii_uppercase();
+                let same: Vec<usize> = (0..pool_len).filter(|&j| pool[j].1[0].to_ascii_uppercase() == head && pool[j].1.len() > 1).collect();
+                if !same.is_empty() {
+                    body = (0..rng.gen_range(2..10)).map(|_| same[rng.gen_range(0..same.len())]).collect();
+                    rep.count("homogeneous_bodies");
+                }
+            }
+            let nb = body.len();
             let nw = rng.gen_range(0..3);
             let watch: Vec<&'static str> = (0..nw).map(|_| KEYS[rng.gen_range(0..KEYS.len())]).collect();
             let c = Case {
